@@ -1,7 +1,7 @@
 (* C14 -- the small rewriting passes: main theorems restated (models: Lit.v / GenLit.v, Rta.v; semantics: Sem.v). *)
 From Coq Require Import ZArith NArith Bool List String Lia.
 From Verif Require Import Base.Word256 Base.PyInt C14.RangeBase C14.RangeFix C14L.LitBase C14L.GenLit C14L.Sem C14L.Lit C14L.Rta
-  C14L.SemProofs C14L.LitProofs C14L.RtaProofs C14L.AcProofs C14L.AssertComb C14L.AcStep.
+  C14L.SemProofs C14L.LitProofs C14L.RtaProofs C14L.AcProofs C14L.AssertComb C14L.AcStep C14L.PhiElim C14L.PhiElimProofs.
 Import ListNotations.
 Open Scope string_scope.
 Open Scope Z_scope.
@@ -40,6 +40,22 @@ Theorem C14L_ac_combined_assert_partial : forall p q, 0 <= p -> 0 <= q ->
   (w_iszero (w_or p q) <> 0 <-> (w_iszero p <> 0 /\ w_iszero q <> 0)).
 Proof. exact ac_combined_assert_partial. Qed.
 Print Assumptions C14L_ac_combined_assert_partial.
+
+(* PhiEliminationPass validator, PARTIAL: the three local facts are proved (transfer function, CFG edge with parallel phis,
+   replaced phi); the simulation assembling them into `phi_check f As Rs = true -> beh_equiv f (phi_apply f Rs)` is not *)
+Theorem C14L_phi_transfer_sound_partial : forall lv a ins c c', holds a c -> awf a -> step_conc lv ins c c' ->
+  holds (atransfer a ins) c' /\ awf (atransfer a ins).
+Proof. exact phi_transfer_sound_partial. Qed.
+Print Assumptions C14L_phi_transfer_sound_partial.
+Theorem C14L_phi_edge_sound_partial : forall outp phis p Ab c c1, edge_ok outp phis p Ab = true -> acert_ok Ab = true ->
+  forallb (fun ins => nodupb (map fst (phi_pairs (i_args ins)))) phis = true ->
+  holds outp c -> phi_assign phis p c c1 -> holds Ab c1.
+Proof. exact phi_edge_sound_partial. Qed.
+Theorem C14L_phi_repl_sound_partial : forall outp phis p x v c c1, repl_ok outp phis p (x, v) = true ->
+  forallb (fun ins => nodupb (map fst (phi_pairs (i_args ins)))) phis = true ->
+  PhiElim.memN v (phi_outs phis) = false ->
+  holds outp c -> phi_assign phis p c c1 -> c1 x = c1 v.
+Proof. exact phi_repl_sound_partial. Qed.
 
 (* non-vacuity: jnz %0, @revert_block, @cont with both polarities; the models rewrite, and the hypotheses hold *)
 Definition ex_rta : func :=
